@@ -15,7 +15,7 @@ import (
 )
 
 // mockT records what go-snaps tells the test.
-type mockT struct {
+type vxMockT struct {
 	name     string
 	errors   []any
 	logs     []any
@@ -26,22 +26,22 @@ type mockT struct {
 	exitOnSkip bool
 }
 
-func (m *mockT) Helper() { vxrt.Jitter() }
-func (m *mockT) skipped() {
+func (m *vxMockT) Helper() { vxrt.Jitter() }
+func (m *vxMockT) skipped() {
 	m.skips++
 	if m.exitOnSkip {
 		runtime.Goexit()
 	}
 }
-func (m *mockT) Skip(args ...any)     { m.skipped() }
-func (m *mockT) Skipf(string, ...any) { m.skipped() }
-func (m *mockT) SkipNow()             { m.skipped() }
-func (m *mockT) Name() string         { vxrt.Jitter(); return m.name }
-func (m *mockT) Error(args ...any)    { m.errors = append(m.errors, first(args)) }
-func (m *mockT) Log(args ...any)      { m.logs = append(m.logs, first(args)) }
-func (m *mockT) Cleanup(f func())     { vxrt.Jitter(); m.cleanups = append(m.cleanups, f) }
+func (m *vxMockT) Skip(args ...any)     { m.skipped() }
+func (m *vxMockT) Skipf(string, ...any) { m.skipped() }
+func (m *vxMockT) SkipNow()             { m.skipped() }
+func (m *vxMockT) Name() string         { vxrt.Jitter(); return m.name }
+func (m *vxMockT) Error(args ...any)    { m.errors = append(m.errors, vxFirst(args)) }
+func (m *vxMockT) Log(args ...any)      { m.logs = append(m.logs, vxFirst(args)) }
+func (m *vxMockT) Cleanup(f func())     { vxrt.Jitter(); m.cleanups = append(m.cleanups, f) }
 
-func first(args []any) any {
+func vxFirst(args []any) any {
 	if len(args) == 0 {
 		return nil
 	}
@@ -50,18 +50,18 @@ func first(args []any) any {
 
 // end runs the registered cleanups in LIFO order, as testing does when the
 // test function returns.
-func (m *mockT) end() {
+func (m *vxMockT) end() {
 	for i := len(m.cleanups) - 1; i >= 0; i-- {
 		m.cleanups[i]()
 	}
 	m.cleanups = nil
 }
 
-func newT(name string) *mockT { return &mockT{name: name} }
+func vxNewT(name string) *vxMockT { return &vxMockT{name: name} }
 
 // runTest runs a test body the way package testing does: on a goroutine of its own, so that a
 // skip ends the body (deferred calls run), followed by the test's cleanups.
-func runTest(t *mockT, body func()) {
+func vxRunTest(t *vxMockT, body func()) {
 	t.exitOnSkip = true
 	var wg sync.WaitGroup
 	wg.Add(1)
@@ -78,7 +78,7 @@ var _ = vxrt.Assert
 
 // noCRAtEOL: no line of s ends in a carriage return (README "Known
 // limitations": the line reader strips it). Built without branching.
-func noCRAtEOL(s string) bool {
+func vxNoCRAtEOL(s string) bool {
 	ok := true
 	for i := 0; i < len(s); i++ {
 		last := i+1 == len(s)
@@ -93,7 +93,7 @@ func noCRAtEOL(s string) bool {
 
 // plainText: s contains none of the bytes kr/pretty's tabwriter rewrites, so
 // that the formatted text of the string value s is s itself.
-func plainText(s string) bool {
+func vxPlainText(s string) bool {
 	ok := true
 	for i := 0; i < len(s); i++ {
 		c := s[i]
@@ -104,7 +104,7 @@ func plainText(s string) bool {
 
 // dumpDir renders the whole directory (names and contents, one level of
 // sub-directories) as one string, for byte-for-byte comparison.
-func dumpDir(dir string) string {
+func vxDumpDir(dir string) string {
 	out := ""
 	ents, err := os.ReadDir(dir)
 	if err != nil {
@@ -112,7 +112,7 @@ func dumpDir(dir string) string {
 	}
 	for _, e := range ents {
 		if e.IsDir() {
-			out += "D:" + e.Name() + "{" + dumpDir(dir+"/"+e.Name()) + "}"
+			out += "D:" + e.Name() + "{" + vxDumpDir(dir+"/"+e.Name()) + "}"
 			continue
 		}
 		b, _ := os.ReadFile(dir + "/" + e.Name())
@@ -122,7 +122,7 @@ func dumpDir(dir string) string {
 }
 
 // asciiOnly: every byte of s is below 0x80.
-func asciiOnly(s string) bool {
+func vxAsciiOnly(s string) bool {
 	ok := true
 	for i := 0; i < len(s); i++ {
 		ok = vxrt.And(ok, s[i] < 0x80)
@@ -133,17 +133,17 @@ func asciiOnly(s string) bool {
 // ---- shared scenario helpers
 
 const (
-	kindSnapshot = 0
-	kindYAML     = 1
-	kindJSON     = 2
+	vxKindSnapshot = 0
+	vxKindYAML     = 1
+	vxKindJSON     = 2
 )
 
 // doCall issues one Match* call of the given kind through c.
-func doCall(c *Config, t *mockT, kind int, text string) {
+func vxDoCall(c *Config, t *vxMockT, kind int, text string) {
 	switch kind {
-	case kindSnapshot:
+	case vxKindSnapshot:
 		c.MatchSnapshot(t, text)
-	case kindYAML:
+	case vxKindYAML:
 		c.MatchYAML(t, text)
 	default:
 		c.MatchJSON(t, text)
@@ -151,10 +151,10 @@ func doCall(c *Config, t *mockT, kind int, text string) {
 }
 
 // frame renders one well-formed entry of a snapshot file.
-func frame(id, body string) string { return "\n[" + id + "]\n" + body + "\n---\n" }
+func vxFrame(id, body string) string { return "\n[" + id + "]\n" + body + "\n---\n" }
 
 // hasLine: text has a whole line equal to line (built without branching).
-func hasLine(text, line string) bool {
+func vxHasLine(text, line string) bool {
 	n, m := len(text), len(line)
 	found := false
 	for p := 0; p+m <= n; p++ {
@@ -174,28 +174,28 @@ func hasLine(text, line string) bool {
 // symText returns a symbolic text of length 0..n that is a legal formatted
 // value for MatchSnapshot in the model (no CR at end of line, no tabwriter
 // control bytes) and, if ascii, has only bytes below 0x80.
-func symText(label string, n int, ascii bool) string {
+func vxSymText(label string, n int, ascii bool) string {
 	s := vxrt.Text(label, vxrt.Len(label+"-len", 0, n))
-	vxrt.Assume(noCRAtEOL(s))
-	vxrt.Assume(plainText(s))
+	vxrt.Assume(vxNoCRAtEOL(s))
+	vxrt.Assume(vxPlainText(s))
 	if ascii {
-		vxrt.Assume(asciiOnly(s))
+		vxrt.Assume(vxAsciiOnly(s))
 	}
 	return s
 }
 
 // noTerminatorLine: body has no whole line "---" (a well-formed frame body is
 // stored escaped, so it never has one).
-func noTerminatorLine(body string) bool { return vxrt.Not(hasLine(body, "---")) }
+func vxNoTerminatorLine(body string) bool { return vxrt.Not(vxHasLine(body, "---")) }
 
-func os_MkdirAll(dir string) { os.MkdirAll(dir, os.ModePerm) }
+func vxOs_MkdirAll(dir string) { os.MkdirAll(dir, os.ModePerm) }
 
-func writeFile(path, content string) {
+func vxWriteFile(path, content string) {
 	os.MkdirAll(filepath.Dir(path), os.ModePerm)
 	os.WriteFile(path, []byte(content), os.ModePerm)
 }
 
-func readFile(path string) string {
+func vxReadFile(path string) string {
 	b, err := os.ReadFile(path)
 	if err != nil {
 		return "<missing>"
@@ -203,7 +203,7 @@ func readFile(path string) string {
 	return string(b)
 }
 
-func osReadDirNames(dir string) ([]string, error) {
+func vxOsReadDirNames(dir string) ([]string, error) {
 	ents, err := os.ReadDir(dir)
 	if err != nil {
 		return nil, err
@@ -215,9 +215,9 @@ func osReadDirNames(dir string) ([]string, error) {
 	return out, nil
 }
 
-func validJSONString(s string) bool { return gjson.Valid(s) }
+func vxValidJSONString(s string) bool { return gjson.Valid(s) }
 
-func removeFile(p string) { os.Remove(p) }
+func vxRemoveFile(p string) { os.Remove(p) }
 
 // structText builds a text of 1..k lines, each line one of eight shapes around
 // the storage format's special tokens, with symbolic filler bytes:
@@ -227,13 +227,13 @@ func removeFile(p string) { os.Remove(p) }
 // This reaches the line-structured corner cases (adjacent terminators,
 // padded terminators, tokens embedded in longer lines) that fully symbolic
 // texts only reach at lengths of 7..11 bytes.
-func structText(label string, k int) string {
+func vxStructText(label string, k int) string {
 	nl := vxrt.Len(label+"-lines", 1, k)
 	out := ""
 	sym := func() string {
 		c := vxrt.Text(label+"-c", 1)
 		// filler: not a newline, not CR, not a tabwriter control byte, ASCII
-		vxrt.Assume(vxrt.And(vxrt.And(c[0] != '\n', c[0] != '\r'), vxrt.And(plainText(c), c[0] < 0x80)))
+		vxrt.Assume(vxrt.And(vxrt.And(c[0] != '\n', c[0] != '\r'), vxrt.And(vxPlainText(c), c[0] < 0x80)))
 		return c
 	}
 	for i := 0; i < nl; i++ {
@@ -261,7 +261,7 @@ func structText(label string, k int) string {
 	return out
 }
 
-func itoa(n int) string {
+func vxItoa(n int) string {
 	if n == 0 {
 		return "0"
 	}
@@ -274,11 +274,11 @@ func itoa(n int) string {
 }
 
 // differs: a != b as one term (lengths are concrete).
-func differs(a, b string) bool { return vxrt.Not(vxrt.Eq(a, b)) }
+func vxDiffers(a, b string) bool { return vxrt.Not(vxrt.Eq(a, b)) }
 
 // escapeRef is the harness's own statement of the terminator escaping: whole
 // lines equal to --- become /-/-/-/.
-func escapeRef(s string) string {
+func vxEscapeRef(s string) string {
 	out := ""
 	line := ""
 	for i := 0; i <= len(s); i++ {
@@ -300,7 +300,7 @@ func escapeRef(s string) string {
 
 // compactRef strips insignificant white space (outside strings): the harness's
 // own reference for "parses to the same JSON value" on the template documents.
-func compactRef(s string) string {
+func vxCompactRef(s string) string {
 	out := ""
 	inStr := false
 	esc := false
@@ -330,7 +330,7 @@ func compactRef(s string) string {
 
 // jsonTemplate builds a small JSON document with symbolic leaves:
 // 0: {"k":"<s>"}   1: ["<s>",<digit>]   2: {"b":<digit>,"a":"<s>"}
-func jsonTemplate(label string, n int) string {
+func vxJsonTemplate(label string, n int) string {
 	s := vxrt.Text(label, vxrt.Len(label+"-len", 0, n))
 	// string content: printable ASCII without quote and backslash
 	for i := 0; i < len(s); i++ {
@@ -350,9 +350,9 @@ func jsonTemplate(label string, n int) string {
 	}
 }
 
-func cfgWithOpt(dir string, opt int) *Config { return cfgWithOptName(dir, opt, "f") }
+func vxCfgWithOpt(dir string, opt int) *Config { return vxCfgWithOptName(dir, opt, "f") }
 
-func cfgWithOptName(dir string, opt int, filename string) *Config {
+func vxCfgWithOptName(dir string, opt int, filename string) *Config {
 	switch opt {
 	case 1:
 		return WithConfig(Dir(dir), Filename(filename), Update(true))
@@ -365,12 +365,12 @@ func cfgWithOptName(dir string, opt int, filename string) *Config {
 // k1EscapeAlias is the class of known finding K1: the two texts become equal
 // when every whole line "/-/-/-/" is read as "---" (the escape token is itself
 // a legal line, and comparison happens after unescaping both sides).
-func k1EscapeAlias(a, b string) bool {
-	return vxrt.Eq(unescapeRef(a), unescapeRef(b))
+func vxK1EscapeAlias(a, b string) bool {
+	return vxrt.Eq(vxUnescapeRef(a), vxUnescapeRef(b))
 }
 
 // unescapeRef is the harness's own statement of "map whole lines /-/-/-/ to ---".
-func unescapeRef(s string) string {
+func vxUnescapeRef(s string) string {
 	out := ""
 	line := ""
 	for i := 0; i <= len(s); i++ {
@@ -395,9 +395,9 @@ func unescapeRef(s string) string {
 // before it is dropped, the documented limitation), an entry is a line equal to its id followed
 // by the body lines up to a line equal to "---"; the first such entry counts.
 
-var errRefNotFound = fmt.Errorf("reference reader: entry not found")
+var vxErrRefNotFound = fmt.Errorf("reference reader: entry not found")
 
-func scanLines(content string) []string {
+func vxScanLines(content string) []string {
 	var lines []string
 	start := 0
 	for i := 0; i < len(content); i++ {
@@ -421,12 +421,12 @@ func scanLines(content string) []string {
 }
 
 // refPrev returns the body of entry id in the file at path and the line number of its header.
-func refPrev(id, path string) (string, int, error) {
+func vxRefPrev(id, path string) (string, int, error) {
 	b, err := os.ReadFile(path)
 	if err != nil {
-		return "", -1, errRefNotFound
+		return "", -1, vxErrRefNotFound
 	}
-	lines := scanLines(string(b))
+	lines := vxScanLines(string(b))
 	for i := 0; i < len(lines); i++ {
 		if lines[i] != id {
 			continue
@@ -441,9 +441,9 @@ func refPrev(id, path string) (string, int, error) {
 			}
 			body += lines[j] + "\n"
 		}
-		return "", -1, errRefNotFound
+		return "", -1, vxErrRefNotFound
 	}
-	return "", -1, errRefNotFound
+	return "", -1, vxErrRefNotFound
 }
 
 // ---- user-visible marks of the printed output (written out here: the harnesses judge what is
@@ -456,7 +456,7 @@ const (
 )
 
 // isLog: a value handed to t.Log is the given message (colour codes around it allowed).
-func isLog(v any, msg string) bool {
+func vxIsLog(v any, msg string) bool {
 	s, ok := v.(string)
 	if !ok {
 		return false
@@ -471,4 +471,4 @@ func isLog(v any, msg string) bool {
 
 // forceInit makes the package's start-up (reading the environment, the CI flag, the defaults)
 // happen now, e.g. before goroutines start.
-func forceInit() { _ = WithConfig() }
+func vxForceInit() { _ = WithConfig() }
